@@ -336,6 +336,50 @@ func (x *explorer) explore(prefix []int, top bool) {
 	}
 }
 
+// globalsMode: package-level state must not depend on what the library processed. All scenario jobs are run
+// once (lazily built tables get built), every package-level variable of the library is dumped, the jobs are
+// run again on inputs of the same shapes with different spellings, and the variables are dumped again.
+func globalsMode() {
+	dump := func() map[string]string {
+		out := map[string]string{}
+		for name, ptr := range verifhook.Globals {
+			out[name] = deepDump(ptr)
+		}
+		return out
+	}
+	runAll := func() {
+		for _, sc := range sjobs.Scenarios(3) {
+			for i := 0; i < 3; i++ {
+				sc.Make()[i]()
+			}
+			e := run(sc.Make()[:3], nil)
+			_ = e
+		}
+	}
+	runAll()
+	runAll()
+	d0 := dump()
+	sjobs.Alt()
+	runAll()
+	d1 := dump()
+	var changed []string
+	var names []string
+	for name := range d0 {
+		names = append(names, name)
+		if d0[name] != d1[name] {
+			changed = append(changed, name)
+		}
+	}
+	sort.Strings(changed)
+	sort.Strings(names)
+	detail := map[string]string{}
+	for _, n := range changed {
+		detail[n] = short(d0[n]) + "  ==>  " + short(d1[n])
+	}
+	b, _ := json.Marshal(map[string]any{"variables": names, "changed": changed, "detail": detail})
+	fmt.Println(string(b))
+}
+
 func main() {
 	verifhook.Yield = yieldY
 	if os.Getenv("SCHED_TINY") != "" {
@@ -376,6 +420,10 @@ func main() {
 		if bad {
 			os.Exit(1)
 		}
+		return
+	}
+	if len(os.Args) > 1 && os.Args[1] == "globals" {
+		globalsMode()
 		return
 	}
 	si, _ := strconv.Atoi(os.Args[1])
